@@ -62,6 +62,11 @@ let handle (toks : string list) : string =
     (match Cli.cli_ppb (if kind = "0" then None else Some (z_of_string r)) with
      | Cli.CliOk p -> "ok " ^ string_of_z p
      | Cli.CliRejected -> "rejected")
+  | "rid" :: _n :: bytes ->
+    (* refid_to_u32 on the bytes of the string *)
+    (match Cli.refid_of (Stdlib.List.map z_of_string bytes) with
+     | Some v -> "ok " ^ string_of_z v
+     | None -> "rejected")
   | "shm" :: rest ->
     let ord_of s = match int_of_string s with
       | 0 -> Machine.Rlx | 1 -> Machine.Acq | 2 -> Machine.Rel | 3 -> Machine.AcqRel | _ -> Machine.SeqCst in
